@@ -49,6 +49,11 @@ def _inject(fmt, ents, i, kind):
         col = {"sam": 3, "gtf": 3}.get(fmt, 1)
         f[col] = f[col][:-1] + "x"
         e = "\t".join(f) + "\n"
+    elif kind.startswith("tok:"):
+        _, col, tok = kind.split(":", 2)
+        f = e[:-1].split("\t")
+        f[int(col)] = tok
+        e = "\t".join(f) + "\n"
     elif kind == "strand":
         f = e[:-1].split("\t")
         f[5] = "K"
@@ -69,6 +74,17 @@ KINDS = {"fastq": ["marker", "plus"], "fasta2line": ["marker"], "bed": ["nonnum"
          "bed6": ["nonnum", "strand", "ncols_more", "ncols_less", "ncols_shift"], "vcf": ["nonnum", "ncols_less", "ncols_shift"],
          "sam": ["nonnum"], "gtf": ["nonnum", "ncols_less"], "bdg": ["nonnum", "ncols_shift"]}
 LINES = {"fastq": 4, "fasta2line": 2}
+# numeric columns per format (from the format definitions) and texts that are not numbers of that kind
+NUMCOLS = {"bed": {1: "int", 2: "int"}, "bed6": {1: "int", 4: "optint"}, "bdg": {2: "int", 3: "float"},
+           "narrowPeak": {4: "optint", 6: "float", 9: "int"}, "vcf": {1: "int"}, "sam": {1: "int", 3: "int", 4: "int"},
+           "gtf": {3: "int", 4: "int"}}
+BADTOK = {"int": ["x", "7x", "x7", "-", "+", "--1", "1-", "1 ", "+-1", "1e3", "1.5x"],
+          "optint": ["x", ".x", "..", "7x", "-", ". ", ".7"],
+          "float": ["x", "1.2.3", "1e", "e5", "--1.0", ".", "-", "1.0x", "1e+", "1_0", "-."]}
+for _f, _cols in NUMCOLS.items():
+    for _c, _t in _cols.items():
+        KINDS.setdefault(_f, [])
+        KINDS[_f] += [f"tok:{_c}:{_tok}" for _tok in BADTOK[_t]]
 
 
 def cases(tier, rng):
@@ -78,6 +94,8 @@ def cases(tier, rng):
             for lens in ([[1, 2], [2, 5], [5, 1]] if big else [rng.choice([[1, 2], [2, 5], [5, 1]])]):
                 ents, header = c01.make_entries(fmt, n, lens, rng)
                 for kind in kinds:
+                    if kind.startswith("tok:") and not big and rng.random() < 0.6:
+                        continue
                     for i in range(n):
                         if kind == "ncols_shift" and i == n - 1:
                             continue
@@ -213,8 +231,6 @@ def agree(c, got, exp):
     return True
 
 
-def _model_applicable(c):
-    return c["op"] != "read" or c["kind"] in ("marker", "plus", "nonnum", "strand")
 
 
 def model_request(c):
@@ -229,7 +245,7 @@ def model_request(c):
         return {"op": "kline_read", "n": LINES[c["fmt"]], "marker": ord("@" if c["fmt"] == "fastq" else ">"), "plus": c["fmt"] == "fastq",
                 "mode": mode, "file": data, "k": c["k"]}
     cols = [l.count("\t") + 1 for l in body.split("\n") if l != "" or True][:body.count("\n") + (0 if body.endswith("\n") else 1)]
-    if c["kind"] in ("nonnum", "strand"):
+    if c["kind"] in ("nonnum", "strand") or c["kind"].startswith("tok:"):
         return {"op": "delim_read", "mode": mode, "file": data, "k": c["k"], "bad": [c["i"]], "cols": cols, "colcheck": c["fmt"] != "sam"}
     if c["k"] > len(data) + 1:      # the whole file is one buffer: the column check decides alone
         return {"op": "delim_read", "mode": mode, "file": data, "k": c["k"], "bad": [], "cols": cols, "colcheck": c["fmt"] != "sam"}
@@ -239,6 +255,10 @@ def model_request(c):
 def agree_model(c, got, m):
     if c["op"] != "read":
         return got == m
+    if c["kind"].startswith("tok:") and isinstance(got, dict) and str(got.get("err", "")).startswith("other:"):
+        # the property only demands *an* error for a non-numeric value; which texts the library diagnoses as a
+        # FormatException (with a line) rather than another exception is not modelled
+        return True
     return core.canon(got) == core.canon(m)
 
 
